@@ -71,9 +71,28 @@ namespace
         {
         };
         static Device &device() { static Device d; return d; }
+        // a handler reached through its interface: the bound method is virtual, the delegate is made from the base class'
+        // pointer to member and a pointer to the base
+        struct Listener
+        {
+            virtual void on_timer(int id, int check) = 0;
+            virtual ~Listener() {}
+        };
+        struct WorldListener : Listener
+        {
+            TimerWorldT<TT> *world = nullptr;
+            void on_timer(int id, int check) override { probe("virtual_method_delegate_fired"); world->on_delegate(id, check); }
+        };
+        static WorldListener &listener() { static WorldListener l; return l; }
         static igris::delegate<void, int, int> make(TimerWorldT<TT> *w, int id)
         {
-            int kind = (id / 2 + w->n) % 4; // which delegate kind a timer id gets rotates with the number of timers of the run
+            int kind = (id / 2 + w->n) % 5; // which delegate kind a timer id gets rotates with the number of timers of the run
+            if (kind == 4)
+            {
+                listener().world = w;
+                Listener *iface = &listener();
+                return igris::make_delegate(&Listener::on_timer, iface);
+            }
             if (kind == 1)
             {
                 device().world = w;
